@@ -41,7 +41,7 @@ ASSUMPTIONS = ["ChaCha20-Poly1305 in ipv8_rust_tunnels is trusted (the oracle pe
 REACH = ["delivered_forward", "delivered_backward", "layer_checked_forward", "layer_checked_backward", "hops:1", "hops:2",
          "hops:3", "fault:flip", "fault:cid", "fault:splice", "fault:inject", "fault:flag", "fault:plain_data", "tampered_dropped",
          "speedtest_ok", "e2e_linked", "e2e_delivered", "e2e_reader_checked", "sent_from_ready_callback", "plain_reader_checked",
-         "e2e_ipv8_shaped_payload", "fault:reflect"]
+         "e2e_ipv8_shaped_payload", "fault:reflect", "outside_answer_during_removal_grace_period"]
 
 SIZES = [2, 3, 10, 22, 23, 24, 64, 100, 279, 500, 1000, 1399, 1400]
 
@@ -53,6 +53,10 @@ def cases(tier: str, base_seed: int):  # noqa: ANN201
         n += 1
         yield {"seed": base_seed + n, "hops": hops, "knobs": {"lat_jit": 0.0}, "sizes": SIZES, "faults": [],
                "second_circuit": False}
+    for hops in (1, 2, 3):
+        n += 1
+        yield {"seed": base_seed + n, "hops": hops, "knobs": {"lat_jit": 0.0}, "sizes": [64, 279], "faults": [],
+               "second_circuit": False, "exit_removes": True}
     # sweeps: every byte position of one cell of each kind on each link
     for hops in ((2,) if tier == "quick" else (1, 2, 3)):
         for cell in range(0, 10 if tier == "quick" else 40, 1):
@@ -95,7 +99,7 @@ def cases(tier: str, base_seed: int):  # noqa: ANN201
                                "cell": rng.randrange(0, 60), "pos": rng.random(), "mask": 1 << rng.randrange(8),
                                "mode": rng.choice(["alter", "extra"])})
         yield {"seed": seed, "hops": hops, "knobs": knobs, "sizes": sizes, "faults": faults,
-               "second_circuit": mode == "tamper" or rng.random() < 0.3}
+               "second_circuit": mode == "tamper" or rng.random() < 0.3, "exit_removes": rng.random() < 0.25}
 
 
 def readers(tw, pkt, marker: bytes, max_depth: int = 4) -> bool:  # noqa: ANN001
@@ -377,6 +381,7 @@ def execute(case: dict) -> dict:  # noqa: C901, PLR0915
     tw = TunnelWorld(c, n=hops + 3, exits=(hops + 1, hops + 2))
     sent_fwd: dict = {}     # payload -> marker
     sent_bwd: set = set()
+    late_markers: list = []
     faults = case.get("faults", [])
     lossy = bool(case["knobs"].get("loss")) or bool(faults)
     state = {"phase": "build", "cells": 0, "tampered_ids": set()}
@@ -520,6 +525,26 @@ def execute(case: dict) -> dict:  # noqa: C901, PLR0915
             except (asyncio.TimeoutError, Exception):  # noqa: BLE001
                 world.probe("speedtest_failed")
         await asyncio.sleep(9.0)     # covers a ping round
+        if case.get("exit_removes"):
+            # the exit gives its side up on its own (as its sweep does for an old circuit) and the outside host answers once more
+            # during the removal grace period: whatever still travels back must travel encrypted
+            path_now = tw.path_of(o, circ)
+            x = path_now[-1] if len(path_now) == hops else None
+            srcs = sorted({src for _t, _d, src in w.received})
+            if x is not None and srcs:
+                for cid in list(x.ov.exit_sockets):
+                    x.call(x.ov.remove_exit_socket, cid, "c04: exit gives up", destroy=0)
+                await asyncio.sleep(1.0)
+                for k in range(2):
+                    lm = b"LATE%04dx" % k + rng.randbytes(4).hex().encode()
+                    late_markers.append(lm)
+                    lp = b"d" + lm + rng.randbytes(40) + b"e"
+                    sent_bwd.add(lp)
+                    for src in srcs:
+                        w.transport.sendto(lp, src)
+                    world.probe("outside_answer_during_removal_grace_period")
+                    await asyncio.sleep(1.0)
+                await asyncio.sleep(1.0)
         state["phase"] = "done"
         await asyncio.sleep(1.0)
         res["w"] = w
@@ -596,7 +621,7 @@ def execute(case: dict) -> dict:  # noqa: C901, PLR0915
         parts = cell_parts(pkt.orig or pkt.data)
         if pkt.dst in tunnel_addrs and pkt.src in tunnel_addrs:
             raw = pkt.orig or pkt.data
-            for payload, marker in sent_fwd.items():
+            for marker in [*sent_fwd.values(), *late_markers]:
                 if marker and marker in raw:
                     c.violate("no_plaintext_in_transit", "plaintext_marker_on_tunnel_link",
                               f"marker visible in a datagram from {pkt.src_node} to {pkt.dst} (label {pkt.label})")
